@@ -507,6 +507,9 @@ func (c *control) dirMove(colon, at bool, params []any) {
 	default:
 		c.argPos += n
 	}
+	if c.argPos < 0 || len(c.args) < c.argPos {
+		slip.ErrorPanic(c.scope, 0, "move directive leaves the argument list at %d of %q", c.pos, c.str)
+	}
 }
 
 func (c *control) dirCall(colon, at bool, params []any) {
